@@ -12,8 +12,12 @@ import (
 	eth2client "github.com/attestantio/go-eth2-client"
 	"github.com/attestantio/go-eth2-client/api"
 	apiv1 "github.com/attestantio/go-eth2-client/api/v1"
+	"github.com/attestantio/go-eth2-client/spec"
+	"github.com/attestantio/go-eth2-client/spec/altair"
+	"github.com/attestantio/go-eth2-client/spec/bellatrix"
+	"github.com/attestantio/go-eth2-client/spec/capella"
+	"github.com/attestantio/go-eth2-client/spec/deneb"
 	"github.com/attestantio/go-eth2-client/spec/phase0"
-	"github.com/attestantio/vouch/mock"
 	nullmetrics "github.com/attestantio/vouch/services/metrics/null"
 	"github.com/attestantio/vouch/verifsupport"
 	"github.com/rs/zerolog"
@@ -25,6 +29,10 @@ type c18Step struct {
 	Fetch string   `json:"fetch"`
 	Now   uint64   `json:"now"`
 	Chain []uint64 `json:"chain"`
+	// ground truth: parent of every block (0: a block outside the model)
+	Parent []int `json:"parent"`
+	// HeadEvent: does the node hand out the signed block?
+	Ok bool `json:"ok"`
 }
 
 type c18Scenario struct {
@@ -85,6 +93,80 @@ func (h *c18Headers) BeaconBlockHeader(_ context.Context, opts *api.BeaconBlockH
 	return nil, errors.New("unknown block")
 }
 
+// c18Blocks is the scripted beacon node's block store: the signed block of root r has slot chain[r], names
+// parent[r] as its parent (an unknown root when 0) and is of a version that depends on r, so that every arm of
+// the handler is driven: 1 Bellatrix, 2 Capella, 3 Deneb (all with an execution payload), 4 Altair, others phase 0.
+type c18Blocks struct {
+	chain  []uint64
+	parent []int
+	mode   string // outcome of the next fetch: "ok" or "err"
+	called string
+}
+
+func c18Hash(i int) phase0.Hash32 {
+	var h phase0.Hash32
+	h[0] = 0xe0
+	h[31] = byte(i)
+	return h
+}
+
+// c18ExecRoot maps an execution head hash back to the block it belongs to (0: none yet, -1: not a hash of the model).
+func c18ExecRoot(h phase0.Hash32) int {
+	if h == (phase0.Hash32{}) {
+		return 0
+	}
+	for i := 1; i < 32; i++ {
+		if h == c18Hash(i) {
+			return i
+		}
+	}
+	return -1
+}
+
+func (b *c18Blocks) SignedBeaconBlock(_ context.Context, opts *api.SignedBeaconBlockOpts) (*api.Response[*spec.VersionedSignedBeaconBlock], error) {
+	if b.mode == "err" {
+		b.called = "err"
+		return nil, errors.New("scripted failure")
+	}
+	for i := range b.chain {
+		r := c18Root(i + 1)
+		if r.String() != opts.Block {
+			continue
+		}
+		b.called = "ok"
+		slot := phase0.Slot(b.chain[i])
+		parent := phase0.Root{0xee, 0xee}
+		if i < len(b.parent) && b.parent[i] != 0 {
+			parent = c18Root(b.parent[i])
+		}
+		stateRoot := phase0.Root{0x01}
+		res := &spec.VersionedSignedBeaconBlock{}
+		switch i + 1 {
+		case 1:
+			res.Version = spec.DataVersionBellatrix
+			res.Bellatrix = &bellatrix.SignedBeaconBlock{Message: &bellatrix.BeaconBlock{Slot: slot, ParentRoot: parent, Body: &bellatrix.BeaconBlockBody{
+				ExecutionPayload: &bellatrix.ExecutionPayload{StateRoot: [32]byte(stateRoot), BlockNumber: b.chain[i], BlockHash: c18Hash(i + 1)}}}}
+		case 2:
+			res.Version = spec.DataVersionCapella
+			res.Capella = &capella.SignedBeaconBlock{Message: &capella.BeaconBlock{Slot: slot, ParentRoot: parent, Body: &capella.BeaconBlockBody{
+				ExecutionPayload: &capella.ExecutionPayload{StateRoot: [32]byte(stateRoot), BlockNumber: b.chain[i], BlockHash: c18Hash(i + 1)}}}}
+		case 3:
+			res.Version = spec.DataVersionDeneb
+			res.Deneb = &deneb.SignedBeaconBlock{Message: &deneb.BeaconBlock{Slot: slot, ParentRoot: parent, Body: &deneb.BeaconBlockBody{
+				ExecutionPayload: &deneb.ExecutionPayload{StateRoot: stateRoot, BlockNumber: b.chain[i], BlockHash: c18Hash(i + 1)}}}}
+		case 4:
+			res.Version = spec.DataVersionAltair
+			res.Altair = &altair.SignedBeaconBlock{Message: &altair.BeaconBlock{Slot: slot, ParentRoot: parent, Body: &altair.BeaconBlockBody{}}}
+		default:
+			res.Version = spec.DataVersionPhase0
+			res.Phase0 = &phase0.SignedBeaconBlock{Message: &phase0.BeaconBlock{Slot: slot, ParentRoot: parent, Body: &phase0.BeaconBlockBody{}}}
+		}
+		return &api.Response[*spec.VersionedSignedBeaconBlock]{Data: res, Metadata: map[string]any{}}, nil
+	}
+	b.called = "err"
+	return nil, errors.New("unknown block")
+}
+
 func TestVerifC18(t *testing.T) {
 	var scenarios []c18Scenario
 	verifsupport.Scenarios(t, &scenarios)
@@ -95,6 +177,7 @@ func TestVerifC18(t *testing.T) {
 	for _, sc := range scenarios {
 		var s *Service
 		var headers *c18Headers
+		var blocks *c18Blocks
 		var events *c18Events
 		var sched *verifsupport.Scheduler
 		var ct *verifsupport.ChainTime
@@ -116,6 +199,11 @@ func TestVerifC18(t *testing.T) {
 				ct = verifsupport.NewChainTime(32, 12*time.Second)
 				ct.SetSlot(st.Now)
 				headers = &c18Headers{chain: st.Chain, mode: "ok"}
+				parent := st.Parent
+				if parent == nil {
+					parent = make([]int, len(st.Chain))
+				}
+				blocks = &c18Blocks{chain: st.Chain, parent: parent, mode: "ok"}
 				events = &c18Events{handlers: map[string]eth2client.EventHandlerFunc{}}
 				sched = verifsupport.NewScheduler()
 				var err error
@@ -123,7 +211,7 @@ func TestVerifC18(t *testing.T) {
 					WithLogLevel(zerolog.Disabled),
 					WithMonitor(nullmetrics.New()),
 					WithChainTime(ct),
-					WithSignedBeaconBlockProvider(mock.NewSignedBeaconBlockProvider()),
+					WithSignedBeaconBlockProvider(blocks),
 					WithBeaconBlockHeadersProvider(headers),
 					WithEventsProvider(events),
 					WithScheduler(sched),
@@ -134,7 +222,10 @@ func TestVerifC18(t *testing.T) {
 				if events.handlers["block"] == nil {
 					t.Fatalf("cache did not register a block event handler")
 				}
-				tr.Emit(verifsupport.Ev{"sc": sc.Sc, "ev": "Reset", "chain": st.Chain, "now": st.Now})
+				if events.handlers["head"] == nil {
+					t.Fatalf("cache did not register a head event handler")
+				}
+				tr.Emit(verifsupport.Ev{"sc": sc.Sc, "ev": "Reset", "chain": st.Chain, "parent": parent, "now": st.Now})
 			case "Advance":
 				ct.SetSlot(st.Now)
 				tr.Emit(verifsupport.Ev{"sc": sc.Sc, "ev": "Advance", "now": st.Now})
@@ -144,6 +235,34 @@ func TestVerifC18(t *testing.T) {
 					Data:  &apiv1.BlockEvent{Slot: phase0.Slot(headers.chain[st.Root-1]), Block: c18Root(st.Root)},
 				})
 				tr.Emit(verifsupport.Ev{"sc": sc.Sc, "ev": "BlockEvent", "root": st.Root, "map": project()})
+			case "CtlBlockEvent":
+				// what the controller's block event handler does with the same event (the handler itself is
+				// driven by TestVerifC18Ctl in the controller's package)
+				s.SetBlockRootToSlot(c18Root(st.Root), phase0.Slot(headers.chain[st.Root-1]))
+				tr.Emit(verifsupport.Ev{"sc": sc.Sc, "ev": "CtlBlockEvent", "root": st.Root, "map": project()})
+			case "CtlHeadEvent":
+				// the controller's head event handler does not touch the cache (driven in TestVerifC18Ctl)
+				tr.Emit(verifsupport.Ev{"sc": sc.Sc, "ev": "CtlHeadEvent", "root": st.Root, "map": project()})
+			case "HeadEvent":
+				blocks.called = "none"
+				blocks.mode = "ok"
+				if !st.Ok {
+					blocks.mode = "err"
+				}
+				events.handlers["head"](&apiv1.Event{
+					Topic: "head",
+					Data:  &apiv1.HeadEvent{Slot: phase0.Slot(headers.chain[st.Root-1]), Block: c18Root(st.Root)},
+				})
+				hash, _ := s.ExecutionChainHead(ctx)
+				tr.Emit(verifsupport.Ev{"sc": sc.Sc, "ev": "HeadEvent", "root": st.Root, "ok": blocks.called == "ok",
+					"ehead": c18ExecRoot(hash), "map": project()})
+			case "ExecHead":
+				hash, height := s.ExecutionChainHead(ctx)
+				r := c18ExecRoot(hash)
+				if r > 0 && height != headers.chain[r-1] {
+					r = -1 // hash of one block with the height of another
+				}
+				tr.Emit(verifsupport.Ev{"sc": sc.Sc, "ev": "ExecHead", "head": r})
 			case "Lookup":
 				headers.called = "none"
 				headers.mode = "ok"
